@@ -275,3 +275,90 @@ theorem newGraph_closed (p : Proj) (hnd : p.enabled.Nodup) (g : Graph) (hg : new
     exact this
 
 end CV.Consistency
+
+namespace CV.Consistency
+
+/-- `newGraph`'s inner loop fails iff some *required* dependency is not an enabled service (whatever the order) -/
+theorem edgesOf_error_iff (verts disabled : List String) (n : String) (hn : n ∈ verts) :
+    ∀ (deps : List (String × Bool)) (del : Bool),
+      (∃ e, edgesOf verts disabled n del deps = .error e) ↔ ∃ d ∈ deps, d.1 ∉ verts ∧ d.2 = true
+  | [], _ => by simp [edgesOf]
+  | (dep, req) :: rest, del => by
+    unfold edgesOf
+    by_cases hskip : (del && dep == n) = true
+    · simp only [hskip, if_true]
+      rw [edgesOf_error_iff verts disabled n hn rest del]
+      simp only [Bool.and_eq_true, beq_iff_eq] at hskip
+      constructor
+      · rintro ⟨d, hd, h⟩; exact ⟨d, List.mem_cons_of_mem _ hd, h⟩
+      · rintro ⟨d, hd, h⟩
+        rcases List.mem_cons.mp hd with rfl | hd'
+        · exact absurd (hskip.2 ▸ hn) h.1
+        · exact ⟨d, hd', h⟩
+    · simp only [hskip, Bool.false_eq_true, if_false]
+      by_cases hv : verts.contains dep = true
+      · simp only [hv, if_true]
+        have hdv : dep ∈ verts := List.contains_iff_mem.mp hv
+        have ih := edgesOf_error_iff verts disabled n hn rest del
+        constructor
+        · rintro ⟨e, he⟩
+          cases hr : edgesOf verts disabled n del rest with
+          | ok es => rw [hr] at he; cases he
+          | error e' =>
+            obtain ⟨d, hd, h⟩ := ih.mp ⟨e', hr⟩
+            exact ⟨d, List.mem_cons_of_mem _ hd, h⟩
+        · rintro ⟨d, hd, h⟩
+          rcases List.mem_cons.mp hd with rfl | hd'
+          · exact absurd hdv h.1
+          · obtain ⟨e', he'⟩ := ih.mpr ⟨d, hd', h⟩
+            exact ⟨e', by rw [he']⟩
+      · simp only [hv, Bool.false_eq_true, if_false]
+        have hdv : dep ∉ verts := fun hh => hv (List.contains_iff_mem.mpr hh)
+        cases req with
+        | true =>
+          simp only [if_true]
+          exact ⟨fun _ => ⟨(dep, true), List.mem_cons_self .., hdv, rfl⟩, fun _ => ⟨_, rfl⟩⟩
+        | false =>
+          simp only [Bool.false_eq_true, if_false]
+          rw [edgesOf_error_iff verts disabled n hn rest true]
+          constructor
+          · rintro ⟨d, hd, h⟩; exact ⟨d, List.mem_cons_of_mem _ hd, h⟩
+          · rintro ⟨d, hd, h⟩
+            rcases List.mem_cons.mp hd with rfl | hd'
+            · exact absurd h.2 (by simp)
+            · exact ⟨d, hd', h⟩
+
+theorem buildGraph_error_iff (verts disabled : List String) :
+    ∀ (l : List (String × Svc)), (∀ e ∈ l, e.1 ∈ verts) →
+      ((∃ err, buildGraph verts disabled l = .error err) ↔ ∃ e ∈ l, ∃ d ∈ e.2.dependsOn, d.1 ∉ verts ∧ d.2 = true)
+  | [], _ => by simp [buildGraph]
+  | (n, s) :: r, hl => by
+    have hn : n ∈ verts := hl (n, s) (List.mem_cons_self ..)
+    have h1 := edgesOf_error_iff verts disabled n hn s.dependsOn false
+    have ih := buildGraph_error_iff verts disabled r (fun e he => hl e (List.mem_cons_of_mem _ he))
+    unfold buildGraph
+    constructor
+    · rintro ⟨err, herr⟩
+      cases he : edgesOf verts disabled n false s.dependsOn with
+      | error e' =>
+        obtain ⟨d, hd, h⟩ := h1.mp ⟨e', he⟩
+        exact ⟨(n, s), List.mem_cons_self .., d, hd, h⟩
+      | ok es =>
+        rw [he] at herr
+        cases hr : buildGraph verts disabled r with
+        | ok g => rw [hr] at herr; cases herr
+        | error e' =>
+          obtain ⟨e, hem, h⟩ := ih.mp ⟨e', hr⟩
+          exact ⟨e, List.mem_cons_of_mem _ hem, h⟩
+    · rintro ⟨e, hem, d, hd, h⟩
+      cases he : edgesOf verts disabled n false s.dependsOn with
+      | error e' => exact ⟨e', rfl⟩
+      | ok es =>
+        simp only
+        rcases List.mem_cons.mp hem with rfl | hem'
+        · obtain ⟨e', he'⟩ := h1.mpr ⟨d, hd, h⟩
+          rw [he] at he'; cases he'
+        · obtain ⟨e', he'⟩ := ih.mpr ⟨e, hem', d, hd, h⟩
+          exact ⟨e', by rw [he']⟩
+
+end CV.Consistency
